@@ -8,6 +8,7 @@ import (
 	"encoding/json"
 	"fmt"
 	"io"
+	"math/big"
 	"os"
 	"path/filepath"
 	"sort"
@@ -161,9 +162,10 @@ func (r *lqRun) bootstrapTxs(i int) []*types.Transaction {
 	case 1:
 		var txs []*types.Transaction
 		for k := 0; k < 3; k++ {
-			txs = append(txs, vlEvmCreate(n.ethKeys[0], uint64(k), vlInitCode(vlLoggerRuntime)))
+			txs = append(txs, vlEvmCreateP(n.ethKeys[0], uint64(k), vlInitCode(vlLoggerRuntime), 0))
 		}
-		txs = append(txs, vlEvmCreate(n.ethKeys[0], 3, vlInitCode(vlLogger2Runtime)))
+		// (gas price 0: the fee receiver, the governance contract, holds no ONG until the first fee-paying model block)
+		txs = append(txs, vlEvmCreateP(n.ethKeys[0], 3, vlInitCode(vlLogger2Runtime), 0))
 		mt, err := cutils.NewDeployTransaction(neoPutCode, "put", "1", "verif", "", "storage put", payload.NEOVM_TYPE)
 		vhMust(err)
 		mt.Nonce = 400
@@ -277,6 +279,14 @@ func (r *lqRun) modelTxs(shape string, variant int) []*types.Transaction {
 			txs = append(txs, r.cachedTx(key(j+1), func() *types.Transaction { return vlEvmCall(r.n.ethKeys[0], nn, to, tp.Bytes()) }))
 			nonce++
 		}
+		if strings.HasSuffix(shape, "f") {
+			// an EVM transaction that FAILS (transfers more than the sender owns): status failed, the fee log is still emitted
+			nn := nonce
+			txs = append(txs, r.cachedTx(key(len(logs)+1), func() *types.Transaction {
+				return vlEvmSign(r.n.ethKeys[0], ethtypes.NewTransaction(nn, ethcrypto.PubkeyToAddress(r.n.ethKeys[1].PublicKey),
+					new(big.Int).Exp(big.NewInt(10), big.NewInt(40), nil), vlGasLimit, vlGwei(vlGasPrice), nil))
+			}))
+		}
 		return txs
 	}
 	for j := 1; j <= sh.Ntx; j++ {
@@ -388,6 +398,11 @@ func (r *lqRun) buildCandidate(shape string, m *lqMut) *lqDelivered {
 			hdr.TransactionsRoot = lqRandHash("troot", cur)
 		case "badc":
 			hdr.TransactionsRoot = lqRandHash("trootc", cur)
+			hdr.BlockRoot = ls.GetBlockRootWithNewTxRoots(cur+1, []common.Uint256{hdr.TransactionsRoot})
+		case "zero":
+			hdr.TransactionsRoot = common.UINT256_EMPTY
+		case "zeroc":
+			hdr.TransactionsRoot = common.UINT256_EMPTY
 			hdr.BlockRoot = ls.GetBlockRootWithNewTxRoots(cur+1, []common.Uint256{hdr.TransactionsRoot})
 		}
 		if m.Broot == "bad" {
